@@ -1,11 +1,11 @@
 SPECIFICATION Spec
 CONSTANTS
   Confs <- SerConfs
-  InitRegs <- SerRegs0
+  InitRegs <- SerRegsM
   ScopeNames = {"a", "W"}
   MaxScopeDepth = 1
   MaxStack = 1
-  BindVals <- SerVals
+  BindVals <- SerValsM
   MaxBindings = 2
   Enabled = {"Bind"}
   NameOrder <- NamesSer
